@@ -24,16 +24,30 @@ MENUS = [
     ("bounds", [None, "start", "end", "endhol", "starthol"]),
     ("folds", [None, "two"]),
     ("delay", [1, 0]),
+    ("era", ["2022", "2018"]),
 ]
 
 
-def tables(cfg, ndays=14, start="2022-01-10"):
-    idx = pd.bdate_range(start, periods=ndays)          # contains Mon 2022-01-17 (NYSE holiday)
+ERAS = {
+    # start of the tables, the exchange holiday inside them, a Saturday and a Sunday inside them
+    "2022": ("2022-01-10", "2022-01-17", "2022-01-15", "2022-01-16"),      # Martin Luther King day: a rule-based holiday
+    "2018": ("2018-11-26", "2018-12-05", "2018-12-01", "2018-12-02"),      # national day of mourning: a ONE-OFF closure of the NYSE
+}
+
+
+def era(cfg):
+    start, hol, sat, sun = ERAS[cfg.get("era", "2022")]
+    return start, pd.Timestamp(hol), pd.Timestamp(sat), pd.Timestamp(sun)
+
+
+def tables(cfg, ndays=14):
+    start, HOL, SAT, SUN = era(cfg)
+    idx = pd.bdate_range(start, periods=ndays)          # contains the exchange holiday of the era
     yidx = idx
     if cfg["ytable"] == "noholiday":
-        yidx = idx[idx != pd.Timestamp("2022-01-17")]
+        yidx = idx[idx != HOL]
     elif cfg["ytable"] == "weekendrow":
-        yidx = idx.union(pd.DatetimeIndex([pd.Timestamp("2022-01-15")]))
+        yidx = idx.union(pd.DatetimeIndex([SAT]))
     n = len(yidx)
     Y = pd.DataFrame({"a": 100.0 + 1.5 * np.arange(n) + np.sin(np.arange(n)), "b": 50.0 - 0.25 * np.arange(n)}, index=yidx)
     if cfg["assets"] == 1:
@@ -48,7 +62,7 @@ def tables(cfg, ndays=14, start="2022-01-10"):
     elif xi == "everyother":
         xidx = idx[::2]
     else:
-        xidx = idx.union(pd.DatetimeIndex([pd.Timestamp("2022-01-16"), idx[-1] + pd.Timedelta(days=1)]))
+        xidx = idx.union(pd.DatetimeIndex([SUN, idx[-1] + pd.Timedelta(days=1)]))
     m = len(xidx)
     X = pd.DataFrame({"f1": np.linspace(-2.0, 9.0, m), "f2": np.cos(np.arange(m)) * 3.0, "f3": np.arange(m) % 3 - 1.0}, index=xidx)
     if cfg["nan"] == "leadingX":
@@ -79,9 +93,9 @@ def build(cfg):
     elif cfg["bounds"] == "end":
         kw["end"] = idx[-3]
     elif cfg["bounds"] == "endhol":
-        kw["end"] = pd.Timestamp("2022-01-17")      # the range ends exactly on an exchange holiday
+        kw["end"] = era(cfg)[1]      # the range ends exactly on an exchange holiday
     elif cfg["bounds"] == "starthol":
-        kw["start"] = pd.Timestamp("2022-01-17")    # ... or starts on it
+        kw["start"] = era(cfg)[1]    # ... or starts on it
     if cfg["folds"] == "two":
         cut = 8 if len(idx) <= 16 else (2 * len(idx)) // 3
         kw["folds"] = {"training-set": [idx[0].to_pydatetime(), idx[cut].to_pydatetime()],
@@ -175,9 +189,9 @@ def independent_X(cfg, Xin, Yin, env):
     # features are kept up to the requested end bound (not beyond the last valid price date)
     end = Yin.last_valid_index()
     if cfg["bounds"] == "end":
-        end = min(end, Yin.index[Yin.index <= pd.bdate_range("2022-01-10", periods=cfg.get("ndays", 14))[-3]][-1] if False else pd.bdate_range("2022-01-10", periods=cfg.get("ndays", 14))[-3])
+        end = min(end, pd.bdate_range(era(cfg)[0], periods=cfg.get("ndays", 14))[-3])
     elif cfg["bounds"] == "endhol":
-        end = min(end, pd.Timestamp("2022-01-17"))
+        end = min(end, era(cfg)[1])
     X = X.loc[:end]
     X = X.ffill().fillna(0.0).clip(-cfg["clip"], cfg["clip"])
     return X
@@ -294,7 +308,7 @@ def run(tier, **kw):
     rep.set("rule", "window x stride fully crossed (quick {1,2,3}x{none,2}; thorough {1..4}x{none,1,2,3} plus windows up to 30 on a 70-day table) times every "
                     "assignment of {price-table shape (holiday row, weekend row), feature-index shape (same, earlier, later, every other row, extra rows), NaN pattern, "
                     "1-2 assets, transformer (none, z-score, yeo-johnson), clip (5,1,0.5), spread, rate series, start/end bound, two folds, delay} with at most "
-                    "`deviation_bound_completed` non-default choices, on tables of 14 business days spanning NYSE's 2022-01-17 holiday; non-trivial = distinct "
+                    "`deviation_bound_completed` non-default choices, on tables of 14 business days spanning NYSE's 2022-01-17 holiday (rule-based) or its 2018-12-05 one-off closure; non-trivial = distinct "
                     "configuration that executed at least one step")
     rep.set("samples", [cs[0], cs[len(cs) // 3], cs[-1]])
     rep.assumptions = ["compared against the environment's own published env.X / env.Y; for transformer=None env.X itself is re-derived independently",
